@@ -15,7 +15,8 @@
    intersect / get_all / inverse / increment are maps; their internal order is
    insertion order here and they are compared up to permutation ([InkListProofs]). *)
 From Coq Require Import Permutation.
-From Ink.Data Require Export Types.
+From Ink.Data Require Export Types IntSem.
+From Ink.Gen Require Export NativeGen.
 Local Open Scope Z_scope.
 
 (* ---------- InkListItem ---------- *)
@@ -128,22 +129,50 @@ Fixpoint get_list_definition (defs : listdefs) (name : text) : option listdef :=
 Section Ord.
 Variable oo : order_oracle.
 
-(* ListDefinition::get_item_with_value: first entry (iteration order) with that value *)
-Definition def_item_with_value (d : listdef) (val : Z) : option listitem :=
-  match find (fun nv => Z.eqb (snd nv) val) (ord_def oo (snd d)) with
+(* ListDefinition::get_item_with_value.
+   TieIteration: the first entry (iteration order) with that value.
+   TieTotal: among the entries with that value, the smallest item name
+   (Iterator::min keeps the first of equal elements; names are unique). *)
+Definition min_name_step (acc : option (text * Z)) (nv : text * Z) : option (text * Z) :=
+  match acc with
+  | None => Some nv
+  | Some m => match text_cmp (fst m) (fst nv) with Gt => Some nv | _ => acc end
+  end.
+Definition def_item_with_value_tb (tb : tie_break) (d : listdef) (val : Z) : option listitem :=
+  let hits := filter (fun nv : text * Z => Z.eqb (snd nv) val) (ord_def oo (snd d)) in
+  match (match tb with
+         | TieIteration => hd_error hits
+         | TieTotal => fold_left min_name_step hits None
+         end) with
   | Some nv => Some (mkItem (Some (fst d)) (fst nv))
   | None => None
   end.
+Definition def_item_with_value := def_item_with_value_tb tie_break_now.
 
-(* comparator of get_ordered_items *)
+(* comparator of get_ordered_items: by value, then origin name — and, with TieTotal
+   (`cmp_entries`), then item name *)
 Definition item_sort_cmp (a b : listitem * Z) : comparison :=
   if Z.eqb (snd a) (snd b) then opt_text_cmp (it_origin (fst a)) (it_origin (fst b))
   else Z.compare (snd a) (snd b).
+Definition entry_cmp (a b : listitem * Z) : comparison :=
+  match Z.compare (snd a) (snd b) with
+  | Eq => match opt_text_cmp (it_origin (fst a)) (it_origin (fst b)) with
+          | Eq => text_cmp (it_name (fst a)) (it_name (fst b))
+          | c => c
+          end
+  | c => c
+  end.
+Definition sort_cmp_of (tb : tie_break) : listitem * Z -> listitem * Z -> comparison :=
+  match tb with TieIteration => item_sort_cmp | TieTotal => entry_cmp end.
 
-Definition get_ordered_items (l : inklist) : items :=
-  sort_by item_sort_cmp (ord_items oo (l_items l)).
+Definition get_ordered_items_tb (tb : tie_break) (l : inklist) : items :=
+  sort_by (sort_cmp_of tb) (ord_items oo (l_items l)).
+Definition get_ordered_items := get_ordered_items_tb tie_break_now.
 
-(* get_max_item / get_min_item: strict comparison, so the first extreme met is kept *)
+(* get_max_item / get_min_item.
+   TieIteration: strict comparison of values, so the first extreme met is kept.
+   TieTotal: Iterator::max_by / min_by with `cmp_entries` (max_by keeps the later of two
+   equal elements, min_by the earlier; entries of a map are never equal). *)
 Definition max_step (acc : option (listitem * Z)) (kv : listitem * Z) : option (listitem * Z) :=
   match acc with
   | None => Some kv
@@ -154,10 +183,24 @@ Definition min_step (acc : option (listitem * Z)) (kv : listitem * Z) : option (
   | None => Some kv
   | Some (_, m) => if snd kv <? m then Some kv else acc
   end.
-Definition get_max_item (l : inklist) : option (listitem * Z) :=
-  fold_left max_step (ord_items oo (l_items l)) None.
-Definition get_min_item (l : inklist) : option (listitem * Z) :=
-  fold_left min_step (ord_items oo (l_items l)) None.
+Definition max_by_step (acc : option (listitem * Z)) (kv : listitem * Z) : option (listitem * Z) :=
+  match acc with
+  | None => Some kv
+  | Some m => match entry_cmp m kv with Gt => acc | _ => Some kv end
+  end.
+Definition min_by_step (acc : option (listitem * Z)) (kv : listitem * Z) : option (listitem * Z) :=
+  match acc with
+  | None => Some kv
+  | Some m => match entry_cmp m kv with Gt => Some kv | _ => acc end
+  end.
+Definition get_max_item_tb (tb : tie_break) (l : inklist) : option (listitem * Z) :=
+  fold_left (match tb with TieIteration => max_step | TieTotal => max_by_step end)
+            (ord_items oo (l_items l)) None.
+Definition get_min_item_tb (tb : tie_break) (l : inklist) : option (listitem * Z) :=
+  fold_left (match tb with TieIteration => min_step | TieTotal => min_by_step end)
+            (ord_items oo (l_items l)) None.
+Definition get_max_item := get_max_item_tb tie_break_now.
+Definition get_min_item := get_min_item_tb tie_break_now.
 
 (* get_origin_names: `k.get_origin_name().unwrap()` for every key — an item
    without origin panics (ink_list.rs:114, defect D20) *)
@@ -185,8 +228,6 @@ End Ord.
                     constructor does.
    Only the SET of names is ever observable (LIST_ALL / LIST_INVERT of an emptied
    result), so the names are listed in map order without consulting the oracle. *)
-Inductive origin_copy := CopyRaw | CopyEffective.
-
 Definition names_for_copy (cm : origin_copy) (l : inklist) : list text :=
   match cm with
   | CopyRaw => l_init_names l
